@@ -1,7 +1,7 @@
 (* C03 — table obligations about the upstream reply reader (dialvia/http.go). *)
 From Coq Require Import List NArith Bool.
 From FwdLib Require Import Bytes.
-From G03 Require Import Tables ReplyReader Socks.
+From G03 Require Import Tables ReplyReader Socks Lookup.
 Import ListNotations.
 Open Scope N_scope.
 
@@ -38,4 +38,16 @@ Definition socks_example_ok : bool :=
   | _, _ => false
   end.
 Lemma ob_socks_example : socks_example_ok = true.
+Proof. vm_compute. reflexivity. Qed.
+
+(* close.go: direct assertion first, then the reflective search *)
+Lemma ob_closewriter_lookup_shape : as_closewriter_direct_then_lookup = true.
+Proof. vm_compute. reflexivity. Qed.
+(* a wrapper embedding the connection is searched into; a connection behind an unexported field is not *)
+Definition lookup_example_ok : bool :=
+  as_close_writer (Val false true [Val true true []])
+  && negb (as_close_writer (Val false true [Val true false []]))
+  && negb (as_close_writer (Val false true [Val false false [Val true true []]]))
+  && as_close_writer (Val false true [Val false true [Val false true []; Val true true []]]).
+Lemma ob_lookup_example : lookup_example_ok = true.
 Proof. vm_compute. reflexivity. Qed.
